@@ -100,8 +100,11 @@ def engine_state(gwy) -> dict[str, Any]:
 class Rig:
     """One gateway + the way packets reach it."""
 
-    def __init__(self, loop, ctx, stack: str, eavesdrop: bool):
+    def __init__(self, loop, ctx, stack: str, eavesdrop: bool, cfg: dict[str, Any] | None = None, lists: dict[str, Any] | None = None):
         self.loop, self.ctx, self.stack, self.eavesdrop = loop, ctx, stack, eavesdrop
+        self.cfg = cfg
+        self.full_gaps = ctx.rng.random() < 0.25
+        self.lists = lists or {"mode": "none", "known_list": {}, "block_list": {}}
         self.gwy: Any = None
         self.air: airmod.Air | None = None
         self.trail: list[str] = []
@@ -109,13 +112,16 @@ class Rig:
         self.clock_us = 0
 
     async def start(self) -> None:
-        cfg = {"disable_discovery": True, "enable_eavesdrop": self.eavesdrop}
+        import copy
+
+        cfg = dict(self.cfg) if self.cfg else {"disable_discovery": True, "enable_eavesdrop": self.eavesdrop}
+        lists = copy.deepcopy({k: v for k, v in self.lists.items() if k != "mode" and v})
         if self.stack == "file":
-            self.gwy = harness.file_gateway([], config=cfg)
+            self.gwy = harness.file_gateway([], config=cfg, **lists)
             await asyncio.wait_for(self.gwy.start(), timeout=30)
         else:
             self.air = airmod.Air(self.loop)
-            self.gwy = await harness.start_port_gateway(self.loop, self.air, GWY_ID, config=cfg)
+            self.gwy = await harness.start_port_gateway(self.loop, self.air, GWY_ID, config=cfg, **lists)
 
     async def feed(self, dtm: str, frame: str) -> None:
         self.trail.append(frame)
@@ -130,9 +136,25 @@ class Rig:
         else:
             assert self.air is not None
             port = self.gwy._vrf_port
+            await self.wait_gap(dtm)
             port.stage_line(frame)
             await asyncio.sleep(0.02)
             await vloop.drain(self.loop, 6)
+
+    async def wait_gap(self, dtm: str) -> None:
+        """Port stack: let the virtual clock pass the history's own inter-packet gap (minus the 20 ms a read takes)."""
+        import datetime as _dt
+
+        try:
+            t = _dt.datetime.fromisoformat(dtm)
+        except ValueError:
+            return
+        prev, self.prev_dtm = getattr(self, "prev_dtm", None), t
+        if prev is not None and (gap := (t - prev).total_seconds() - 0.02) > 0:
+            # the serial transport's write-gap task wakes every 50 ms of (virtual) time, so long gaps
+            # cost wall time: most histories cap them at 4 s (beyond every sub-second heuristic),
+            # every fourth one lets them pass in full so that messages really age and expire
+            await asyncio.sleep(gap if self.full_gaps else min(gap, 4.0))
 
     def next_dtm(self) -> str:
         import datetime as _dt
